@@ -711,7 +711,7 @@ func genPrograms(prop, out, tier string, rng *rand.Rand) {
 		exhaustive = true
 	}
 	sink.perFile = 40
-	sink.Close(fmt.Sprintf("(C03/C17 additionally: the COMPLETE space of RowSets with at most two ranges plus at most one key, bounds from the 7-key adversarial universe, each bound unset/closed/open, limits {0,2} (thorough {0,1,2,3,7,8}), on a table holding all 7 keys, on all three engines: 50851 range sets x 8 keys x limits per engine, reported as blocks of 1600 range sets) random request programs (focus %s) of about %d requests over %d row keys (byte-prefixes of each other, 0x00/0xff), 3 families + 1 unknown, %d qualifiers incl. empty, boundary timestamps, %d clock values incl. non-millisecond and huge; MutateRow/MutateRows/CheckAndMutateRow/ReadModifyWriteRow/ReadRows with RowSets, filters to depth 3, limits/admin requests/forced GC passes, a full-table read after most writes; every program runs on the btree, in-memory leveldb and on-disk leveldb engines; distinct = distinct canonical (program, observation) text (identical observations on several engines count once); non-trivial = at least one successful write and one non-empty read", prop, length, len(keyUniverse), len(qualifiers), len(clocks)), exhaustive)
+	sink.Close(fmt.Sprintf("(C12/C13 additionally: every interleaving, at the yield points before the table lock and between row fetch and write-back, of a CheckAndMutateRow resp. ReadModifyWriteRow with a second write to the same row, compared step by step with the interleaving model; C13: several rules on confusable columns; C14/C17: things removed and brought back under the same name; C03/C17 additionally: the COMPLETE space of RowSets with at most two ranges plus at most one key, bounds from the 7-key adversarial universe, each bound unset/closed/open, limits {0,2} (thorough {0,1,2,3,7,8}), on a table holding all 7 keys, on all three engines: 50851 range sets x 8 keys x limits per engine, reported as blocks of 1600 range sets) random request programs (focus %s) of about %d requests over %d row keys (byte-prefixes of each other, 0x00/0xff), 3 families + 1 unknown, %d qualifiers incl. empty, boundary timestamps, %d clock values incl. non-millisecond and huge; MutateRow/MutateRows/CheckAndMutateRow/ReadModifyWriteRow/ReadRows with RowSets, filters to depth 3, limits/admin requests/forced GC passes, a full-table read after most writes; every program runs on the btree, in-memory leveldb and on-disk leveldb engines; distinct = distinct canonical (program, observation) text (identical observations on several engines count once); non-trivial = at least one successful write and one non-empty read", prop, length, len(keyUniverse), len(qualifiers), len(clocks)), exhaustive)
 }
 
 // c16RulePrograms: a family's rule is changed, cleared and restored between writes and forced passes
